@@ -156,6 +156,7 @@ func Transform(pkgs []*packages.Package, excluded func(filename string) bool) *R
 	in.normalizeRangeInt(pkgs, excluded)
 	in.normalizeLibraryLoops(pkgs, excluded)
 	in.normalizeLiteralRange(pkgs, excluded)
+	in.normalizeLocalStructs(pkgs, excluded)
 	in.findClosures(pkgs, excluded)
 	for _, pk := range pkgs {
 		for _, f := range pk.Syntax {
@@ -716,7 +717,9 @@ func (in *inliner) tryInline(pk *packages.Package, file *ast.File, s ast.Stmt, o
 		if st == nil {
 			return nil
 		}
-		st.tail = in.returnsOf(owner, s, len(x.Results))
+		// `return f(..)`: every way out of f becomes a return of the function
+		// (literal) this statement belongs to, which is where f's results went
+		st.tail = true
 		pre, results := in.expand(pk, file, st, owner)
 		if pre == nil || len(results) == 0 {
 			return nil
@@ -1002,6 +1005,9 @@ func (in *inliner) expand(pk *packages.Package, file *ast.File, st *site, ownerD
 	}
 	// parameters bound to function literals (see below): parameter -> fresh name
 	litParam := map[*types.Var]string{}
+	// ... and, for those that are other names of a caller's variable, the
+	// caller's identifier (what a copy of the parameter's name stands for)
+	aliasIdent := map[*types.Var]*ast.Ident{}
 	// receiver and arguments, in evaluation order
 	type bind struct {
 		name string // callee-side name
@@ -1026,14 +1032,24 @@ func (in *inliner) expand(pk *packages.Package, file *ast.File, st *site, ownerD
 		case !wantPtr && havePtr:
 			e = &ast.StarExpr{X: st.recv}
 		}
-		tmp := prefix + "recv"
-		pre = append(pre, &ast.AssignStmt{Lhs: []ast.Expr{ast.NewIdent(tmp)}, Tok: token.DEFINE, Rhs: []ast.Expr{e}})
-		pre = append(pre, &ast.AssignStmt{Lhs: []ast.Expr{ast.NewIdent("_")}, Tok: token.ASSIGN, Rhs: []ast.Expr{ast.NewIdent(tmp)}})
 		name := ""
+		var recvObj *types.Var
 		if c.decl.Recv != nil && len(c.decl.Recv.List) == 1 && len(c.decl.Recv.List[0].Names) == 1 {
 			name = c.decl.Recv.List[0].Names[0].Name
+			recvObj, _ = c.pkg.TypesInfo.Defs[c.decl.Recv.List[0].Names[0]].(*types.Var)
 		}
-		binds = append(binds, bind{ren(name), tmp})
+		if alias, ok := in.stableAlias(pk, ownerDecl, c, e, recvObj); ok && e == st.recv {
+			// the receiver is a local of the caller that is never assigned
+			// again, and the callee leaves its receiver variable alone: the
+			// callee's name for it is another name for that local
+			litParam[recvObj] = alias
+			aliasIdent[recvObj] = e.(*ast.Ident)
+		} else {
+			tmp := prefix + "recv"
+			pre = append(pre, &ast.AssignStmt{Lhs: []ast.Expr{ast.NewIdent(tmp)}, Tok: token.DEFINE, Rhs: []ast.Expr{e}})
+			pre = append(pre, &ast.AssignStmt{Lhs: []ast.Expr{ast.NewIdent("_")}, Tok: token.ASSIGN, Rhs: []ast.Expr{ast.NewIdent(tmp)}})
+			binds = append(binds, bind{ren(name), tmp})
+		}
 	}
 	for i := 0; i < nparams; i++ {
 		pt := sig.Params().At(i).Type()
@@ -1057,6 +1073,13 @@ func (in *inliner) expand(pk *packages.Package, file *ast.File, st *site, ownerD
 				fresh := fmt.Sprintf("%sfn_%s", prefix, pv.Name())
 				pre = append(pre, &ast.AssignStmt{Lhs: []ast.Expr{ast.NewIdent(fresh)}, Tok: token.DEFINE, Rhs: []ast.Expr{lit}})
 				litParam[pv] = fresh
+				continue
+			}
+		}
+		if argI != nil {
+			if alias, ok := in.stableAlias(pk, ownerDecl, c, argI, gsig.Params().At(i)); ok && sig.TypeParams().Len() == 0 && types.Identical(pk.TypesInfo.TypeOf(argI), pt) {
+				litParam[gsig.Params().At(i)] = alias
+				aliasIdent[gsig.Params().At(i)] = argI.(*ast.Ident)
 				continue
 			}
 		}
@@ -1155,6 +1178,9 @@ func (in *inliner) expand(pk *packages.Package, file *ast.File, st *site, ownerD
 		if v, _ := obj.(*types.Var); v != nil {
 			if fresh, ok := litParam[v]; ok {
 				cp.Name = fresh
+				if ai := aliasIdent[v]; ai != nil {
+					in.origOf[cp] = ai
+				}
 				return
 			}
 		}
@@ -1384,6 +1410,91 @@ func (in *inliner) onlyCalled(c *callee, pv *types.Var) bool {
 		return true
 	})
 	return uses > 0 && uses == calls
+}
+
+// stableAlias: e is a plain identifier naming a local variable (or parameter)
+// of the calling function that is assigned only where it is declared and whose
+// address is never taken, and the callee never assigns to (or takes the
+// address of) its parameter pv: inside the inlined body pv can then simply be
+// called by the caller's name for the value. The callee's own locals all get
+// fresh names, so nothing in the body can hide the caller's identifier.
+func (in *inliner) stableAlias(pk *packages.Package, owner *ast.FuncDecl, c *callee, e ast.Expr, pv *types.Var) (string, bool) {
+	id, ok := e.(*ast.Ident)
+	if !ok || pv == nil || owner == nil || owner.Body == nil || id.Name == "_" {
+		return "", false
+	}
+	resolve := func(info *types.Info, x *ast.Ident) types.Object {
+		o := x
+		for in.origOf[o] != nil {
+			o = in.origOf[o]
+		}
+		if obj := info.Uses[o]; obj != nil {
+			return obj
+		}
+		return info.Defs[o]
+	}
+	v, _ := resolve(pk.TypesInfo, id).(*types.Var)
+	if v == nil || v.IsField() || v.Parent() == nil || v.Parent() == pk.Types.Scope() {
+		return "", false
+	}
+	touched := func(body ast.Node, info *types.Info, target *types.Var, allowDef bool) bool {
+		hit := false
+		is := func(x ast.Expr) (*ast.Ident, bool) {
+			for {
+				p, ok := x.(*ast.ParenExpr)
+				if !ok {
+					break
+				}
+				x = p.X
+			}
+			i, ok := x.(*ast.Ident)
+			if !ok {
+				return nil, false
+			}
+			return i, resolve(info, i) == types.Object(target)
+		}
+		ast.Inspect(body, func(n ast.Node) bool {
+			switch x := n.(type) {
+			case *ast.AssignStmt:
+				for _, l := range x.Lhs {
+					if i, ok := is(l); ok {
+						o := i
+						for in.origOf[o] != nil {
+							o = in.origOf[o]
+						}
+						if !(allowDef && x.Tok == token.DEFINE && info.Defs[o] == types.Object(target)) {
+							hit = true
+						}
+					}
+				}
+			case *ast.IncDecStmt:
+				if _, ok := is(x.X); ok {
+					hit = true
+				}
+			case *ast.UnaryExpr:
+				if _, ok := is(x.X); ok && x.Op == token.AND {
+					hit = true
+				}
+			case *ast.RangeStmt:
+				if x.Key != nil {
+					if _, ok := is(x.Key); ok && x.Tok == token.ASSIGN {
+						hit = true
+					}
+				}
+				if x.Value != nil {
+					if _, ok := is(x.Value); ok && x.Tok == token.ASSIGN {
+						hit = true
+					}
+				}
+			}
+			return !hit
+		})
+		return hit
+	}
+	if touched(owner.Body, pk.TypesInfo, v, true) || touched(c.decl.Body, c.pkg.TypesInfo, pv, false) {
+		return "", false
+	}
+	return id.Name, true
 }
 
 // mentions: some identifier of the callee's declaration is spelled name.
